@@ -1,7 +1,7 @@
 import MlModel.Lemmas.AggHeapMS
 import MlModel.Lemmas.AggRollingHeap
 import MlModel.Lemmas.ThrHeap
-import MlModel.Lemmas.ThrHeapRefine
+import MlModel.Lemmas.ThrHeapMS
 import MlModel.Lemmas.CmStateHeap
 import MlModel.Lemmas.HistHeap
 /-!
@@ -219,35 +219,6 @@ theorem C11_merge_states_hist_unchanged (edges : List Rat) (ops : List (OpRM (Li
 
 /-! ## ThresholdedRetrieval: the heap model refines the pure n-ary left fold -/
 
-namespace ThrMS
-open MlModel.Agg.Retrieval.Thr MlModel.Agg.Retrieval.Thr.H
-
-variable {α : Type} [DecidableEq α]
-
-/-- the value-level history: `merge_states` is the left fold of `Counts.merge` into the first state -/
-def pureStepRM (ts : List Rat) (accs : List Counts) : OpRM (List (Row α)) Cell → List Counts
-  | .r op => pureStepR ts accs op
-  | .mergeStates [] => accs
-  | .mergeStates (i :: js) => js.foldl (fun accs j => pureStep (α := α) ts accs (.merge i j)) accs
-
-theorem pureStepRM_flatten (ts : List Rat) (accs : List Counts) (op : OpRM (List (Row α)) Cell) :
-    pureStepRM ts accs op = op.flatten.foldl (pureStepR ts) accs := by
-  cases op with
-  | r op => simp [pureStepRM, OpRM.flatten]
-  | mergeStates ids =>
-    cases ids with
-    | nil => simp [pureStepRM, OpRM.flatten]
-    | cons i js => simp only [pureStepRM, OpRM.flatten, List.foldl_map, pureStepR]
-
-theorem pureRunRM_flatten (ts : List Rat) (ops : List (OpRM (List (Row α)) Cell)) :
-    ∀ accs, ops.foldl (pureStepRM ts) accs = (ops.flatMap OpRM.flatten).foldl (pureStepR ts) accs := by
-  induction ops with
-  | nil => intro accs; rfl
-  | cons op ops ih =>
-    intro accs
-    rw [List.foldl_cons, ih, pureStepRM_flatten, List.flatMap_cons, List.foldl_append]
-
-end ThrMS
 
 open MlModel.Agg.Retrieval.Thr MlModel.Agg.Retrieval.Thr.H in
 /-- for every history of make / add / merge / **merge_states** / result / poke the three count
@@ -256,8 +227,8 @@ of `merge_states` is the left fold of the pure `Counts.merge` into the first sta
 theorem C11_merge_states_thr_heap_refines {α : Type} [DecidableEq α] (ts : List Rat)
     (ms : List (Kind × Option Rat)) (ops : List (OpRM (List (Row α)) Cell)) (i : Nat) (o : Obj)
     (hi : ((SysR.init (cls α ts ms)).runM ops).objs[i]? = some o) :
-    (ops.foldl (ThrMS.pureStepRM ts) [])[i]? = some (abs ((SysR.init (cls α ts ms)).runM ops).heap o) := by
-  rw [ThrMS.pureRunRM_flatten]
+    (ops.foldl (pureStepRM ts) [])[i]? = some (abs ((SysR.init (cls α ts ms)).runM ops).heap o) := by
+  rw [pureRunRM_flatten]
   rw [C11_merge_states_history_flatten_returned] at hi ⊢
   obtain ⟨c, hc, ok⟩ := (refines_run ts ms (ops.flatMap OpRM.flatten)).2 i o hi
   rw [hc, ok.abs_eq]
